@@ -333,8 +333,12 @@ def wire_pass(ctx, files, root, n):
             o = ctx.rng.choice(odd)
             msgs.insert(ctx.rng.randrange(len(msgs) + 1), {"jsonrpc": "2.0", "id": "w%d-%d" % (k, j), "method": "verif/unknown " + o, "params": {"text": o}})
         stream = b""
+        raw_utf8 = k % 2 == 1      # every second stream: a client that writes non-ASCII text as raw UTF-8 (Content-Length counts bytes)
         for m in msgs:
-            body = json.dumps(m).encode("ascii")            # ensure_ascii: lone surrogates travel as escapes
+            try:
+                body = json.dumps(m, ensure_ascii=False).encode("utf-8") if raw_utf8 else json.dumps(m).encode("ascii")
+            except UnicodeEncodeError:
+                body = json.dumps(m).encode("ascii")        # lone surrogates travel as escapes only
             stream += b"Content-Length: %d\r\n\r\n" % len(body) + body
         out = io.BytesIO()
         args = vars(cli("fortls").parse_args(["--disable_autoupdate", "--incremental_sync", "--nthreads", "1"]))
